@@ -122,4 +122,9 @@ def resetRepeatsInit (init reset : Assigns) : Bool := reset.all fun p => lastVal
 def writesCovered (reset : Assigns) (written exempt : List String) : Bool :=
   written.all fun f => (reset.map (·.1)).contains f || exempt.contains f
 
+/-- explicit snapshot (NOT regenerated) of the per-call part of Generator.__init__ / Generator.generate before the repair
+    "Generator.generate restarts the generated-alias counter": kept only as a witness of why the reset is needed -/
+def preFixGeneratorInit : Assigns := [("unsupported_messages", "[]"), ("_next_name", "name_sequence('_t')")]
+def preFixGeneratorReset : Assigns := [("unsupported_messages", "[]")]
+
 end SqlglotModel.Determinism
